@@ -485,7 +485,15 @@ class World:
         row = self._do(si, lambda: a.obj[i])
         si.info["index"] = i
         if row is not None and type(row).__name__ == "Row":
-            self.rows.append((self.new_token(), row, tuple(freeze(x) for x in row), a.id))
+            by_name = {}
+            for j in range(len(a.obj.cols())):
+                acc = self.accessor(a.obj, j)
+                if acc and "__" not in acc:
+                    try:
+                        by_name[acc] = freeze(getattr(row, acc))
+                    except Exception:  # noqa: BLE001
+                        pass
+            self.rows.append((self.new_token(), row, (tuple(freeze(x) for x in row), by_name), a.id))
             del self.rows[:-4]
         return si
 
@@ -740,6 +748,10 @@ class World:
         key, m, positions = key_of(n)
         sc = a.obj.schema()
         form, val = self._assign_value(step, m, sc.kind if sc is not None else None)
+        if isinstance(key, int) and n and -n <= key < n and step[3] % 6 == 1:
+            tw = self._twin(a.obj[key])
+            if tw is not None:
+                form, val = "scalar", tw       # an equal value of the next rung over the element itself (1 -> 1.0, a day -> its midnight)
         wrong_len = (step[3] % 7 == 0) and form == "list"
         if wrong_len:
             val = val + [0]
@@ -756,6 +768,18 @@ class World:
         if si.info["ok"] and a.token is not None:
             a.token = None          # a successful write gives the vector private storage
         return si
+
+    @staticmethod
+    def _twin(x):
+        if type(x) is bool:
+            return int(x)
+        if type(x) is int and abs(x) < 2 ** 53:
+            return float(x)
+        if type(x) is float:
+            return complex(x)
+        if type(x) is _date:
+            return _datetime(x.year, x.month, x.day)
+        return None
 
     def op_set_int(self, step):
         return self._vwrite("set_int", step, lambda n: ((step[2] % (n + 1)) - (1 if step[3] % 3 == 0 else 0), 1,
